@@ -3,9 +3,15 @@
    on one store are, in terms of what callers of Take(key) can observe.
 
    Per key the store counts the requests of the current period.  The first request of a
-   period opens it (the counter lives `period` seconds from that moment; with Align() the
-   first period is cut at the next multiple of `period` of the local wall clock, i.e. it
-   lasts between 1 and `period` seconds); request number c of the period is answered
+   period opens it: the counter lives `period` seconds from that moment.  With Align() periods
+   are the ALIGNED ones of the local wall clock (unix seconds + zone offset): a period ends at
+   the next multiple of `period`, so a counter opened by a request whose clock read showed the
+   local second s lives AlignedWindow(s) = period - (s mod period) seconds - the time left in
+   the aligned period, computed from the clock AT THAT REQUEST (not when the limiter object was
+   built, not cached) and at whole-second granularity (the store's ttl is in seconds, so the
+   counter ends less than a second after the aligned boundary).  Every Take therefore carries
+   S, the set of local wall-clock seconds its clock read may have shown (one value, or the few
+   seconds the call lasted); request number c of the period is answered
    Allowed if c < quota, HitQuota if c = quota and OverQuota if c > quota, so within one
    period exactly the first `quota` requests are granted and the quota-th is flagged.
    A store error is answered (Unknown, error) - never a grant - and is legal only while the
@@ -44,34 +50,37 @@ PInit(K, p, q, a) ==
   /\ cnt = [k \in K |-> 0] /\ exp = [k \in K |-> 0]
 
 Code(c) == IF c < quota THEN Allowed ELSE IF c = quota THEN HitQuota ELSE OverQuota
-Windows == IF align THEN 1..period ELSE {period}
+\* seconds left in the aligned period for a request made at local wall-clock second s
+AlignedWindow(s) == period - (s % period)
+\* the life of a counter opened by a request whose clock read showed one of the seconds in S
+Windows(S) == IF align THEN {AlignedWindow(s) : s \in S} ELSE {period}
 
 \* the script ran: request number cnt[k]+1 of the period; the first one opens a period of w seconds
 Count(k, w) ==
   /\ cnt' = [cnt EXCEPT ![k] = @ + 1]
   /\ exp' = IF cnt[k] = 0 THEN [exp EXCEPT ![k] = pnow + w * 1000] ELSE exp
 
-TakeOk(k, code) ==
+TakeOk(k, code, S) ==
   /\ pup # "down"
   /\ code = Code(cnt[k] + 1)
-  /\ \E w \in Windows : Count(k, w)
+  /\ \E w \in Windows(S) : Count(k, w)
   /\ UNCHANGED <<period, quota, align, pnow, pup>>
 
-TakeErr(k, code) ==
+TakeErr(k, code, S) ==
   /\ pup # "up"
   /\ code = Unknown
   /\ \/ UNCHANGED <<cnt, exp>>
-     \/ \E w \in Windows : Count(k, w)
+     \/ \E w \in Windows(S) : Count(k, w)
   /\ UNCHANGED <<period, quota, align, pnow, pup>>
 
 \* a Take whose context was already cancelled: an error whatever the state of the store
-TakeCtx(k, code) ==
+TakeCtx(k, code, S) ==
   /\ code = Unknown
   /\ \/ UNCHANGED <<cnt, exp>>
-     \/ pup # "down" /\ \E w \in Windows : Count(k, w)
+     \/ pup # "down" /\ \E w \in Windows(S) : Count(k, w)
   /\ UNCHANGED <<period, quota, align, pnow, pup>>
 
-Take(k, code, err) == IF err THEN TakeErr(k, code) ELSE TakeOk(k, code)
+Take(k, code, err, S) == IF err THEN TakeErr(k, code, S) ELSE TakeOk(k, code, S)
 
 \* the clock moves by d ms; a counter whose time has come is gone
 PAdvance(d) ==
